@@ -391,7 +391,16 @@ def rule_names(c, prog):
             f = impl_fn(prog, v, "visit_seq")
             if f is None:
                 continue
-            for n in core.walk_fn(f):
+            # the name table may sit in visit_seq itself or in a private helper it calls
+            bodies = [f]
+            for depth_ in range(2):
+                for g_ in list(bodies):
+                    for x in core.walk_fn(g_):
+                        if x.get("k") in ("Call", "MethodCall"):
+                            h = prog.fns.get(core.callee_generic(x) or "")
+                            if h is not None and h.body is not None and h.crate == "rbx_types" and h not in bodies:
+                                bodies.append(h)
+            for n in (y for g_ in bodies for y in core.walk_fn(g_)):
                 if n.get("k") == "Match" and n.get("src") == "Normal":
                     for arm in n["arms"]:
                         for alt in tables.pat_alts(arm["pat"]):
@@ -550,7 +559,19 @@ def rule_matcolors(c, prog):
             c.not_decided.append(f"{fn.path}: no iteration that {what} was recognised")
 
     # constants: prefix length, bytes per colour, total length, as far as their forms are plain
+    from sa import bounds
+    bounds.PROG = prog
+
     def int_lits(n):
+        """constant integers in a comparison / argument: literals, or a named constant expression as a whole"""
+        v = bounds.const_int(n)
+        if v is not None:
+            return [v]
+        if n.get("k") == "Binary":
+            for side in (n["l"], n["r"]):
+                v = bounds.const_int(side)
+                if v is not None:
+                    return [v]
         return [core.lit_value(y) for y in core.walk(n) if y.get("k") == "Lit" and y["lit"]["lk"] == "int"]
     order_len = None
     for y in core.walk_fn(dec):
